@@ -102,6 +102,11 @@ def case_coq(c):
                                                  Nn(r["snap"]), "None" if r["prop"] < 0 else "(Some %s)" % Nn(r["prop"]),
                                                  "true" if r["armed"] else "false") for r in c["rounds"]]
         return "CTrunc %s %s %s %s [%s]" % (Nn(c["fileSize"]), Nn(c["first"]), Nn(c["last"]), vlib.coq_z(c["t"]), "; ".join(rs))
+    if k == "send":
+        pr = "; ".join("(%s, %s)" % (Nn(p["k"]), "true" if p["msg"] == "app" else "false") for p in c["probes"])
+        sl = "; ".join("(%s, %s, %s, %s)" % (Nn(q["i"]), "None" if q["file"] < 0 else "(Some %d)" % q["file"], vlib.coq_z(q["off"]),
+                                             "true" if q["termOk"] else "false") for q in c["slots"])
+        return "CSend %s %s %s %s [%s] [%s]" % (Nn(c["fileSize"]), Nn(c["first"]), Nn(c["last"]), Nn(c["snap"]), pr, sl)
     if k == "group" and c["forced"] in ("second", "stale"):
         return "CGroupT %s %s" % ("true" if c["forced"] == "stale" else "false", "true" if c["missing"] > 0 else "false")
     if k == "group":
@@ -253,6 +258,9 @@ def main(ck):
     if stopped:
         ck.cov["observation_write_on_stopped_raft_node"] = stopped[0]   # outside the fault space; see NOTES.md
     ck.log("harness done: %d cases" % len(cases))
+    for i, c in enumerate(cases):
+        if c["kind"] in ("trunc", "send") and c.get("err"):
+            ck.broken.append("harness case %d (%s) could not be run: %s" % (i, c["kind"], c["err"]))
     # sanity of the replay observations (contiguous range ending at commit)
     for i, c in enumerate(cases):
         if c["kind"] == "replay" and c.get("replayed"):
@@ -363,8 +371,10 @@ def main(ck):
             return len(c.get("groups") or []) > 1
         if k == "replay":
             return bool(c.get("clears")) or c["commit"] > c["appliedAt"]
-        if k in ("conflict", "coord", "group"):
+        if k in ("conflict", "coord", "group", "send"):
             return True
+        if k == "trunc":
+            return any(r["prop"] >= 0 for r in c["rounds"]) or any(r["armed"] for r in c["rounds"])
         if k == "ack":
             return any(o["op"] == "c" for o in (c.get("ops") or [])) and any(o["op"] == "w" for o in (c.get("ops") or []))
         return True
